@@ -575,6 +575,7 @@ func (d *Downstream) resume(parentConn *Conn) error {
 	}
 	parentConn.wireConnMu.Lock()
 	d.wireConn = parentConn.wireConn
+	d.connOutages = parentConn.state.Outages() // read together with the connection it belongs to
 	parentConn.wireConnMu.Unlock()
 
 	var resErr error
